@@ -1116,6 +1116,28 @@ impl CollectionV3 {
         // C++ AGC creates batches of ~50 samples, but batch_size defaults to 1M which is wrong
         let i_sample = self.samples_loaded;
 
+        let loaded = self.read_contig_batch(archive, id_batch, i_sample);
+        if loaded.is_err() {
+            // A batch is loaded completely or not at all. Contig names are applied before the
+            // details part is read, so a failure in between (e.g. a read error) used to leave
+            // samples that look loaded but have no segments: later queries on the same handle
+            // returned empty contigs instead of loading the batch again. Samples from
+            // `samples_loaded` on belong to batches that are not loaded yet.
+            for sample in self.sample_desc.iter_mut().skip(i_sample) {
+                sample.contigs.clear();
+            }
+        }
+        loaded
+    }
+
+    /// Read and apply one contig batch (names, then details); advances the cursors on success.
+    #[allow(clippy::needless_range_loop)]
+    fn read_contig_batch(
+        &mut self,
+        archive: &mut Archive,
+        id_batch: usize,
+        i_sample: usize,
+    ) -> Result<()> {
         // Load contig names
         let contig_stream_id = self
             .collection_contigs_id
